@@ -323,7 +323,7 @@ var c18fanShape = vfed.Shape{Name: "fanout", Streams: []vgen.Stream{
 	{Name: ".", Blocks: []vgen.Block{{Variant: 1, Size: 3}, {Variant: 2, Size: 2}}, Files: []vgen.FileTok{{Pos: 0, Len: 5, Name: "f"}}},
 	{Name: "./d", Blocks: []vgen.Block{{Variant: 3, Size: 4}}, Files: []vgen.FileTok{{Pos: 0, Len: 4, Name: `g\040h`}}},
 }}
-var c18fanKinds = []string{"A", "K+A", "none"}
+var c18fanKinds = []string{"A+K+B", "K+A", "none"}
 
 func c18pick(text, class, name string) c18answer {
 	for _, t := range vfed.Tamperings(text) {
@@ -633,7 +633,7 @@ func c18rewriteAll(r *vrep.Report) {
 	for si, sh := range shapes {
 		kinds := vfed.HintKinds
 		if sh.NBlocks() >= 3 {
-			kinds = []string{"none", "A", "K+A", "A+A"}
+			kinds = vfed.HintKinds3
 		}
 		vfed.EachKinds(sh.NBlocks(), kinds, func(ks []string) {
 			idx++
